@@ -3,6 +3,7 @@ package main
 // C10 — responses pair with requests; dispatch is consistent with encoding.
 
 import (
+	"bytes"
 	"encoding/binary"
 	"errors"
 	"fmt"
@@ -122,7 +123,7 @@ func goDispatch(pkg string, cmd uint32, res *Result, op string) string {
 }
 
 func runC10(res *Result, d *Driver, g *Rng, tier string) {
-	res.Rule = "every PDU type x every header id it may carry (three SMPP bind flavours) x sequence numbers at 0,1,2^31-1,2^31,2^32-1, every value that is a command id of some protocol, header sizes, and random: GetCommand vs encoded header, GenEmptyResponse type/command/sequence, SetSequenceID vs getter and header offset, dispatcher on the encoded image; dispatchers on every defined id and random ids; non-trivial = distinct (type, header id, sequence) or (dispatcher, id)"
+	res.Rule = "every PDU type x every header id it may carry (three SMPP bind flavours) x sequence numbers at 0,1,2^31-1,2^31,2^32-1, every value that is a command id of some protocol, header sizes, and random: GetCommand vs encoded header, GenEmptyResponse type/command/sequence (and that an earlier response keeps its sequence after later ones are generated), SetSequenceID vs getter and header offset, dispatcher on the encoded image; dispatchers on every defined id and random ids; non-trivial = distinct (type, header id, sequence) or (dispatcher, id)"
 	nseq := 36
 	nrand := 2000
 	if tier == "thorough" {
@@ -141,6 +142,9 @@ func runC10(res *Result, d *Driver, g *Rng, tier string) {
 		pkg := pkgOfName(name)
 		natural := pd.GetCommand().ToUint32()
 		for _, hid := range headerIDs(name, natural) {
+			var prevResp sms.PDU
+			var prevSeq uint32
+			var prevImg []byte
 			for i := 0; i < nseq; i++ {
 				seq := uint32(g.U64())
 				if i < len(seqs) {
@@ -149,6 +153,18 @@ func runC10(res *Result, d *Driver, g *Rng, tier string) {
 				op := fmt.Sprintf("meta %s %d", name, hid)
 				line, p, resp := goMeta(name, hid, seq)
 				res.Eval(fmt.Sprintf("%s/%d", op, seq), true)
+				// a response stays paired with its request after later requests have been answered
+				if resp != nil {
+					if prevResp != nil {
+						img, _ := prevResp.IEncode()
+						if prevResp.GetSequenceID() != prevSeq || !bytes.Equal(img, prevImg) {
+							res.Violate("C10.response-shared:"+name, fmt.Sprintf("the response generated for sequence %d reports %d after the response for sequence %d was generated", prevSeq, prevResp.GetSequenceID(), seq), []string{op})
+						}
+					}
+					prevResp, prevSeq = resp, resp.GetSequenceID()
+					prevImg, _ = resp.IEncode()
+					prevImg = append([]byte(nil), prevImg...)
+				}
 				if i == 0 {
 					ops, goOut = append(ops, op), append(goOut, line)
 				}
